@@ -186,6 +186,11 @@ class RealContainers:
         if op == "copy":
             self.pqs[int(a[1])] = q.copy()
             return "ok"
+        if op == "copysorted":
+            # sorted() = an independent, sorted copy (the model: copy, then sort — the generator
+            # follows this line with `pq <j> sort`, a no-op on the real snapshot)
+            self.pqs[int(a[1])] = q.sorted()
+            return "ok"
         if op == "ordered":
             k = int(a[1])
             g = q.ordereditems()
